@@ -123,12 +123,14 @@ def run(ctx):
         writers = {f.path: f for f in fam_fns if writes[f.path] and f.path not in ctor}
         # complete transactions by role
         trans = {}
+        from rules.stale import removal_fns
+        removal_paths = {p2 for p2, g in removal_fns(prog).items() if g.self_adt == tree}
         for f in fam_fns:
             if f.self_adt != tree:
                 continue
             if f.trait_method() == 'clear':
                 trans[f.path] = 'clear'
-            elif calls_to(prog, f, r['release']) and f.trait_method() != 'clear':
+            elif f.path in removal_paths:
                 trans[f.path] = 'removal'
             else:
                 # linking insert: an allocator-derived value is stored into root or a child link
